@@ -45,7 +45,7 @@ _ALL = {
              'counted (L5, L8); bulk removal/iteration paging is sound and bulk removals report what they removed '
              '(X3, E4).',
              'Equivalence with a reference dictionary over all call histories needs execution and is not decided.'),
-    'C04': P(['X1', 'X2', 'X3', 'X4', ('E2', r'expired|lazy|expire'), 'E3', ('L9', r'Cache\.(incr|add|touch)/')],
+    'C04': P(['X1', 'X2', 'X3', 'X4', ('E2', r'expired|lazy|expire'), 'E3', ('L9', r'Cache\.(incr|add|touch)/'), 'E8'],
              'finite order abstraction {NULL,<,=,>} over every expiry comparison (SQL 3-valued + Python), sibling agreement',
              'Decides that every comparison of an expiry time with the clock - in SQL or Python - implements one '
              'liveness predicate (live iff NULL or > now) and every removal predicate selects only non-live items and '
@@ -85,7 +85,7 @@ _ALL = {
              'write leaves no partial file (F9) and count/size are maintained by triggers for every row event and '
              'assigned nowhere else (F10).',
              'Counter values under real concurrency rely on SQLite trigger atomicity (A2).'),
-    'C09': P(['E1', 'E2', 'E3', 'E4', 'E5', 'E6', 'S5', 'E7'],
+    'C09': P(['E1', 'E2', 'E3', 'E4', 'E5', 'E6', 'S5', 'E7', 'E8'],
              'policy table coherence + guard dominance with order abstraction {<,=,>} on volume vs size_limit',
              'Decides that each policy culls ascending by the column its get-update refreshes and its index covers, '
              'policy none has no cull statement (E1); size eviction is dominated by volume >= size_limit in writes and '
